@@ -26,8 +26,9 @@ ASSUMPTIONS = [
     "third-party cucumber_tag_expressions is part of the executed system (as installed in /venv)",
 ]
 REQUIRED = {"v2.meaning": {"quick": 3000, "thorough": 100000}, "v2.print_roundtrip": {"quick": 3000, "thorough": 100000},
-            "v2.config_substitution": 100, "v2.empty_selects_all": 3, "v2.list_form": 300, "v2.wip_adds_wip_term": 100}
-REQUIRED_SEEN = {"config_list_shape": ["placeholder_after_plain_part", "other"]}
+            "v2.config_substitution": 100, "v2.empty_selects_all": 3, "v2.list_form": 300, "v2.wip_adds_wip_term": 100, "v2.config_file_tags": 100, "v2.list_form_default_protocol": 500}
+REQUIRED_SEEN = {"default_protocol_list_shape": ["only_single_tags"], "config_list_shape": ["placeholder_after_plain_part", "other"], "config_file_kind": ["toml", "ini"],
+                 "config_file_mode": ["none", "plain", "placeholder", "placeholder_and_plain", "wip"]}
 EXHAUSTIVE = {"quick": True, "thorough": True}
 EXHAUSTIVE_SCOPE = "all binary and/or/not trees up to the leaf bound over the operand set, complete truth tables"
 
@@ -176,6 +177,106 @@ def check_wip(lab, mon, rng):
         else:
             lab.P.use(saved)
 
+U_PUNCT = ["a", "b", "r~1", "x-y", "k=v", "c~d"]
+SUBSETS_PUNCT = list(T.subsets(U_PUNCT))
+
+
+def check_default_protocol_lists(lab, mon, rng):
+    """Several --tags options under the DEFAULT protocol setting (nothing configured): every term is a new-style expression --
+    possibly just one tag, whose name may contain '~', '-' or '=' -- and the terms are and-ed."""
+    terms = []
+    for _ in range(rng.choice([2, 2, 3])):
+        if rng.random() < 0.7:
+            terms.append(["lit", rng.choice(U_PUNCT)])
+        else:
+            terms.append(T.random_tree(rng, U_PUNCT, 1))
+    texts = [T.render_v2(t, rng, "min", rng.choice([True, False])) for t in terms]
+    ast = ["and"] + terms
+    want = T.truth_table(ast, SUBSETS_PUNCT)
+    for proto in (None, lab.P.V2):
+        case = {"kind": "list-default-protocol", "text": texts, "protocol": proto.name if proto else "default (auto_detect)"}
+        mon.case(case, True)
+        try:
+            e = lab.make(list(texts)) if proto is None else lab.make(list(texts), proto)
+            got = T.truth_table_of(e.check, SUBSETS_PUNCT)
+            mon.check("v2.list_form_default_protocol", got == want, lambda: dict(case=case, want=want, got=got, parsed=repr(e)))
+            if all(t[0] == "lit" for t in terms):
+                mon.seen("default_protocol_list_shape", "only_single_tags")
+        except Exception as ex:
+            mon.check("v2.list_form_default_protocol", False, dict(case=case, error=repr(ex)))
+
+
+def check_config_files(lab, mon, rng):
+    """Tags written into a configuration file (behave.ini / setup.cfg / pyproject.toml): without --tags they are the
+    expression; with --tags the command line is the expression and {config.tags} in it stands for the file's tags."""
+    import os
+    import shutil
+    import tempfile
+    from behave.configuration import Configuration
+    saved = getattr(lab.P, "_current", None)
+    cwd, home = os.getcwd(), os.environ.get("HOME")
+    root = tempfile.mkdtemp(prefix="bvm-c07-")
+    try:
+        os.makedirs(os.path.join(root, "home"))
+        os.makedirs(os.path.join(root, "work"))
+        os.environ["HOME"] = os.path.join(root, "home")
+        os.chdir(os.path.join(root, "work"))
+        cfg_terms = [T.random_tree(rng, OPERANDS, rng.choice([1, 1, 2]), nary=True) for _ in range(rng.choice([1, 1, 2]))]
+        cfg_texts = [T.render_v2(t, rng, "full", rng.choice([True, False])) for t in cfg_terms]
+        cfg_ast = ["and"] + cfg_terms if len(cfg_terms) > 1 else cfg_terms[0]
+        kind = rng.choice(["behave.ini", "setup.cfg", "pyproject.toml", "pyproject.toml"])
+        if kind == "pyproject.toml":
+            body = "[tool.behave]\ntags = [%s]\n" % ", ".join('"%s"' % t for t in cfg_texts)
+        else:
+            body = "[behave]\ntags = %s\n" % "\n    ".join(cfg_texts)
+        with open(kind, "w") as fh:
+            fh.write(body)
+        mode = rng.choice(["none", "plain", "placeholder", "placeholder_and_plain", "wip"])
+        rest = T.random_tree(rng, OPERANDS, rng.choice([1, 2]), nary=True)
+        rest_text = T.render_v2(rest, rng, "full", False)
+        if mode == "none":
+            args, want_ast = [], cfg_ast
+        elif mode == "plain":
+            args, want_ast = ["--tags=" + rest_text], rest
+        elif mode == "placeholder":
+            args, want_ast = ["--tags={config.tags} and " + rest_text], ["and", cfg_ast, rest]
+        elif mode == "placeholder_and_plain":
+            args, want_ast = ["--tags=" + rest_text, "--tags={config.tags}"], ["and", rest, cfg_ast]
+        else:
+            args, want_ast = ["--wip", "--tags=" + rest_text], ["and", rest, ["lit", "wip"]]
+        subs = WIP_SUBSETS if mode == "wip" else SUBSETS
+        if mode == "wip":
+            # (operands outside the small wip universe evaluate over it all the same)
+            pass
+        want = T.truth_table(want_ast, subs)
+        case = {"kind": "config-file", "file": kind, "content": body, "args": args}
+        mon.case(case, True)
+        mon.seen("config_file_kind", "toml" if kind.endswith(".toml") else "ini")
+        mon.seen("config_file_mode", mode)
+        try:
+            c = Configuration(list(args), tag_expression_protocol=lab.P.V2)
+            got = T.truth_table_of(c.tag_expression.check, subs)
+            mon.check("v2.config_file_tags", got == want,
+                      lambda: dict(case=case, want=want, got=got, final=str(c.tag_expression), config_tags=c.config_tags, tags=c.tags))
+        except Exception as ex:
+            mon.check("v2.config_file_tags", False, dict(case=case, error=repr(ex)))
+    finally:
+        os.chdir(cwd)
+        if home is None:
+            os.environ.pop("HOME", None)
+        else:
+            os.environ["HOME"] = home
+        shutil.rmtree(root, ignore_errors=True)
+        if saved is None:
+            if "_current" in lab.P.__dict__:
+                try:
+                    type.__delattr__(lab.P, "_current")
+                except Exception:
+                    lab.P.use(lab.P.DEFAULT)
+        else:
+            lab.P.use(saved)
+
+
 def check_word_named_tags(lab, mon):
     """Tags whose NAME is a word the implementation knows (never, true, false, none, and_, ...) are ordinary tags."""
     names = ["never", "Never", "true", "false", "none", "android", "nothing", "orange"]
@@ -257,6 +358,9 @@ def run(spec, mon):
         r = T.random_tree(rng, OPERANDS, rng.choice([0, 1, 2]), nary=True)
         check_config(lab, mon, c, r, rng, j % len(TEMPLATES), as_list=("multi" if j % 3 == 1 else (j % 3 == 0)))
         check_wip(lab, mon, rng)
+        check_config_files(lab, mon, rng)
+        for _ in range(3):
+            check_default_protocol_lists(lab, mon, rng)
     if shard == 0:
         ast = ["and", ["or", ["lit", "a"], ["not", ["glob", "a*"]]], ["not", ["lit", "k=v"]]]
         mon.sample({"ast": ast, "text": T.render_v2(ast, rng, "min", True),
